@@ -30,7 +30,7 @@ KNOWN = os.path.join(VERIF, "known_findings.json")
 PLAN = {
     "C02": (["core"], [("pegsim", [])]),
     "C03": (["core"], [("pegsim", [])]),
-    "C05": (["core"], [("pegsim", [])]),
+    "C05": (["core", "io"], [("pegsim", []), ("pegsim-io", [])]),
     "C07": (["core", "io"], [("pegsim", []), ("pegsim-io", [])]),
     "C08": (["core", "cov"], [("pegsim", []), ("pegsim-cov", [])]),
     "C12": (["tree"], [("pegsim-tree", [])]),
